@@ -26,7 +26,7 @@ theorem waiter_returns_only_after_full_stop (g0 : G) (h0 : Initial g0) (sched : 
   have I := inv_run _ sched (inv_initial g0 h0)
   obtain ⟨h1, h12⟩ := (I.ws w hw).ret ok hok
   have hok' := okNow_of_stage I h12
-  simp only [okNow, Bool.and_eq_true, beq_iff_eq, hasPostStop_run] at hok'
+  simp only [okNow, snapshotOk, Bool.and_eq_true, beq_iff_eq, hasPostStop_run] at hok'
   exact ⟨h1, hok'.1, hok'.2⟩
 
 /-- What `ok` records: a waiter that returns in this step stores `okNow g`, the observation of the
@@ -59,6 +59,13 @@ theorem no_lost_wakeup (g0 : G) (h0 : Initial g0) (sched more : List Tid) (i : N
     · rename_i pc _; cases pc <;> simp [WPc.rank]
     · omega
   omega
+
+/-- (they do complete) The exit sequence itself is never blocked: after 15 steps of the exiter,
+whatever else is scheduled in between, it has finished — so together with `no_lost_wakeup` every
+fair schedule lets every waiter that is not abandoned return. -/
+theorem exiter_always_finishes (g0 : G) (h0 : Initial g0) (sched : List Tid)
+    (hcount : 15 ≤ sched.count .e) : (run g0 sched).exiter.finished = true :=
+  exiter_finishes g0 sched (inv_initial g0 h0) (by omega)
 
 /-- (monotone) The status word never decreases — for any callers and any values. -/
 theorem status_monotone (g : G) (sched : List Tid) (h : OnceInv g.sh) :
@@ -155,6 +162,7 @@ end C06
 #print axioms C06.return_records_current_state
 #print axioms C06.no_lost_wakeup_progress
 #print axioms C06.no_lost_wakeup
+#print axioms C06.exiter_always_finishes
 #print axioms C06.status_monotone
 #print axioms C06.cleanup_elected_once
 #print axioms C06.abandon_changes_nothing
